@@ -119,6 +119,16 @@ def directed_configs():
     add('mem', [E('', 'mem', 0), E('cert-authority', 'mem', 4)], form='empty')
     add('mem', [E('', 'mem', 0), E('cert-authority', 'mem', 4)], form='unset')
     add('mem', [E('', 'mem', 0), E('cert-authority', 'mem', 4), E('revoked', '*', 1)], form='default_file')
+    # other ways of reaching the server.  For 'jump', addr is the JUMP host's address: keys filed under it say
+    # nothing about the target reached through the tunnel (which has no peer address at all)
+    add('mem', [E('', '10.0.0.2', 0), E('', 'mem', 1), E('cert-authority', '10.0.0.0/24', 4)], path='jump')
+    add('mem', [E('', 'bar,10.0.0.2', 0), E('', '[mem]:2222', 1), E('cert-authority', '10.0.0.?', 4)], path='jump', port=2222)
+    add('mem', [E('', 'mem', 1), E('revoked', '10.0.0.2', 1), E('', '*,!10.0.0.2', 2)], path='jump')
+    add('mem', [E('', '127.0.0.1', 0), E('', 'mem', 1), E('revoked', '127.0.0.0/8', 2)], path='sock', addr='127.0.0.1')
+    add('mem', [E('', '127.0.0.1', 0), E('', 'mem', 1)], path='proxy', addr='127.0.0.1')
+    add('10.0.0.2', [E('', '10.0.0.0/24', 0), E('', '10.0.0.2', 1), E('revoked', '10.0.0.?', 2)])
+    add('bar', [E('', 'mem', 0), E('', 'bar', 1), E('', 'c04nick', 2)], alias='mem', via_config=True, port=2222)
+    add('bar', [E('', 'bar', 1), E('', 'c04nick', 2)], via_config=True)
     # alias, callbacks, no checking, direct lists
     add('bar', [E('', 'mem', 0), E('', 'bar', 1), E('cert-authority', 'mem', 4)], alias='mem')
     add('mem', [E('', 'bar', 0), E('revoked', 'mem', 1)], cb_key=True, cb_ca=True)
@@ -331,7 +341,7 @@ def stage_cert_validate(ctx, pool):
 # --------------------------------------------------------------------------------------------------
 # stage 2: the decision on a live client connection, many blobs per configuration
 
-async def decide_on_live_client(pool, cfg, kh, blobs_nows, config=None):
+async def decide_on_live_client(pool, cfg, kh, blobs_nows, config=None, options=None):
     """Bring a real client up to the middle of the key exchange (the Liar does not answer), then call its
     validate_server_host_key for every (blob, now)."""
     import asyncssh
@@ -339,6 +349,8 @@ async def decide_on_live_client(pool, cfg, kh, blobs_nows, config=None):
     link = N.LiarLink(liar, cfg['addr'], cfg['port'])
     calls = []
     kw = N.client_kw(kh, cfg['alias'], None, cfg['cb_key'], cfg['cb_ca'], calls, config)
+    if options is not None:
+        kw = {'options': options}                       # one options object (holding known_hosts) reused by several connects
     kw['server_host_key_algs'] = ['ssh-ed25519']
     fut = asyncio.ensure_future(asyncssh.connect(*N.target_args(cfg['host'], cfg['port'], config), tunnel=link, **kw))
     await link.wait_connected(fut)
@@ -366,6 +378,7 @@ def stage_decide(ctx, pool, configs):
     cases, stats = [], {'accept_plain': 0, 'accept_cert': 0, 'reject': 0, 'accept_nocheck': 0, 'cb_accept': 0}
     seen_forms = set()
     for ci, cfg in enumerate(configs):
+        cfg = dict(cfg, path='direct')                  # this stage holds a directly connected client in mid-exchange
         kh = known_hosts_arg(pool, cfg, ctx.work, 'd%d' % ci)
         try:
             tr_real = real_lookup(pool, kh, cfg)
@@ -384,7 +397,8 @@ def stage_decide(ctx, pool, configs):
                 nows = [T0 - 0.5, T0, T0 + 0.5, T0 + 1]
             for now in nows:
                 trials.append((v, now))
-        res, in_kex = asyncio.run(decide_on_live_client(pool, cfg, kh, [(variant_blob(pool, v), now) for v, now in trials]))
+        res, in_kex = asyncio.run(decide_on_live_client(pool, cfg, kh, [(variant_blob(pool, v), now) for v, now in trials],
+                                                        config_file(cfg, ctx.work, 'd%d' % ci)))
         if not in_kex:
             ctx.broke('harness:decide', f'client did not reach the key exchange for {cfg}')
             continue
@@ -468,10 +482,12 @@ ALL_ALGS = ['ssh-ed25519', 'ecdsa-sha2-nistp256', 'ssh-ed25519-cert-v01@openssh.
             'ecdsa-sha2-nistp256-cert-v01@openssh.com']
 
 
-async def one_connect(pool, cfg, kh, v, now, engine, lie, algs):
+async def one_connect(pool, cfg, kh, v, now, engine, lie, algs, config=None):
     import asyncssh
     common = dict(host=cfg['host'], port=cfg['port'], addr=cfg['addr'], known_hosts=kh, alias=cfg['alias'], algs=algs,
-                  cb_key=cfg['cb_key'], cb_ca=cfg['cb_ca'], now=now)
+                  cb_key=cfg['cb_key'], cb_ca=cfg['cb_ca'], now=now, config=config)
+    if engine in ('jump', 'sock', 'proxy'):
+        return await N.connect_via(engine, hostkey_alg=hostkey_alg_of(pool, v), plan=plan_of(pool, v, lie), **common)
     if engine == 'real':
         cert = None
         if v['form'] == 'cert':
@@ -488,9 +504,14 @@ def connect_case(ctx, pool, cfg, v, now, engine, lie, algs, tag, cases, stats):
     kh = known_hosts_arg(pool, cfg, ctx.work, tag)
     tr_real = real_lookup(pool, kh, cfg)
     tr_ref = ref_trust(cfg)
-    obs = asyncio.run(one_connect(pool, cfg, kh, v, now, engine, lie, algs))
+    obs = asyncio.run(one_connect(pool, cfg, kh, v, now, engine, lie, algs, config_file(cfg, ctx.work, tag)))
     name = cfg['alias'] or cfg['host']
     presented = v
+    stats['path.' + cfg.get('path', 'direct')] = stats.get('path.' + cfg.get('path', 'direct'), 0) + 1
+    if cfg.get('via_config'):
+        stats['via_config'] = stats.get('via_config', 0) + 1
+    if cfg['host'] == cfg['addr']:
+        stats['host_is_ip'] = stats.get('host_is_ip', 0) + 1
     if engine == 'real':
         # what the server really presented follows from the negotiation: certificate or plain key
         blob = obs.get('presented_blob')
@@ -524,7 +545,8 @@ def connect_case(ctx, pool, cfg, v, now, engine, lie, algs, tag, cases, stats):
     # direct oracle: usable or credentials on the wire => acceptable key proved by an honest signature
     if (cls == 0 or creds) and not want:
         kind = violation_kind(tr_ref, cfg, presented, now) if honest else 'lying_server_accepted'
-        ctx.failing_input(f'connect() to {name!r} ({cfg["addr"]}:{cfg["port"]}) outcome {obs["exc"] or "connected"}, client '
+        ctx.failing_input(f'connect() to {name!r} (path {cfg.get("path", "direct")}, user asked about {query(cfg)}, '
+                          f'address in play {cfg["addr"]}) outcome {obs["exc"] or "connected"}, client '
                           f'wire {wire}, server saw {saw}: presented {presented}, signature {lie}, reference trust sets '
                           f'{tr_ref} ({kind})',
                           replay_obj(pool, kind, cfg, v, now, stage='connect', engine=engine, lie=lie, algs=algs))
@@ -537,7 +559,7 @@ def connect_case(ctx, pool, cfg, v, now, engine, lie, algs, tag, cases, stats):
         return obs
     if cls == 0 and want:
         stats['accepted'] = stats.get('accepted', 0) + 1
-        if engine == 'liar' and not saw.get('password_seen'):
+        if engine != 'real' and not saw.get('password_seen'):
             ctx.broke('harness:connect', 'accepted liar connection never showed the password')
     cases.append('(%s, %s, %s, %s, (%s, %s, %s, 0, %s), (%d, %s, %s))' % (
         coq_trust(tr_real), cbool(cfg['cb_key']), cbool(cfg['cb_ca']), zs(name), cbool(common), coq_presented(presented),
@@ -561,25 +583,230 @@ def stage_connect(ctx, pool, configs):
         for pool_ in (acc, rej, vs):
             if pool_:
                 picks.append(rng.choice(pool_))
-        for vi, v in enumerate(picks):
+        path = cfg.get('path', 'direct')
+        near = []
+        if path != 'direct' and tr_ref is not None:
+            # keys and CAs the file lists for the address in play (the jump host's, ...) but not for what the user
+            # asked about: presented honestly, they must be refused
+            t2, c2, _ = P.ref_lookup(cfg['lines'], cfg['alias'] or cfg['host'], cfg['addr'], query(cfg)[2])
+            near = [{'form': 'plain', 'key': k} for k in t2 if k not in tr_ref[0]]
+            near += [v for v in vs if v['form'] == 'cert' and v['ca'] in c2 and v['ca'] not in tr_ref[1]][:2]
+            stats['near_miss_variants'] = stats.get('near_miss_variants', 0) + len(near)
+        for vi, v in enumerate(near + picks):
             now = T0 if v['form'] != 'cert' else rng.choice(NOWS)
-            engine = 'real' if can_use_real(v) and rng.random() < 0.5 else 'liar'
-            lie = gen_lie(rng, pool, v) if engine == 'liar' else dict(HONEST, signer=v['key'])
+            if vi < len(near):
+                now = T0
+            engine = path if path != 'direct' else 'real' if can_use_real(v) and rng.random() < 0.5 else 'liar'
+            lie = gen_lie(rng, pool, v) if engine != 'real' and vi >= len(near) else dict(HONEST, signer=v['key'] if v['form'] != 'garbage' else 0)
             algs = ALL_ALGS if rng.random() < 0.7 else None
             obs = connect_case(ctx, pool, cfg, v, now, engine, lie, algs, 'c%d_%d' % (ci, vi), cases, stats)
             if obs is not None and ci == 0 and vi == 0:
-                ctx.sample({'connect': {'query': [cfg['alias'] or cfg['host'], cfg['addr'], cfg['port']], 'presented': v,
+                ctx.sample({'connect': {'query': list(query(cfg)), 'path': path, 'presented': v,
                                         'signature': lie, 'engine': engine, 'outcome': obs['exc'] or 'connected',
                                         'client_wire': obs['client_wire'], 'server_saw': obs['server_saw']}})
     for k, n in sorted(stats.items()):
         ctx.count('connect.' + k, n)
-    for k in ('accepted', 'class.1', 'class.2', 'lying', 'lying_with_trusted_key', 'engine.real', 'engine.liar'):
+    for k in ('accepted', 'class.1', 'class.2', 'lying', 'lying_with_trusted_key', 'engine.real', 'engine.liar',
+              'path.jump', 'path.sock', 'via_config', 'host_is_ip', 'near_miss_variants'):
         if not stats.get(k):
             ctx.broke('vacuity:connect.' + k, repr(stats))
     bad = ctx.coq_cases('connect', IMPORTS, 'chk_connect', cases,
                         ty=f'{TY_TRUST} * bool * bool * list Z * (bool * presented * (Z * Z) * Z * Z) * (Z * bool * bool)')
     if bad:
         ctx.broke('correspondence:connect', f'{len(bad)} of {len(cases)} differ; first: {cases[bad[0]]}')
+
+
+# --------------------------------------------------------------------------------------------------
+# stage 3b: one SSHKnownHosts object (and one options object) reused by a SEQUENCE of lookups and connections.
+# Checked: purity of the lookup - every answer is what a fresh object built from the same text answers, whatever
+# was asked before - and, through it, the decision and connect oracles on every step of the sequence.
+
+def reuse_source(pool, cfg, workdir, tag, source):
+    """(text, factory of a new SSHKnownHosts built from it)"""
+    import asyncssh
+    text = '# c04\n' + P.render(pool, cfg['lines'])
+    if source == 'read':
+        path = os.path.join(workdir, 'kh_reuse_%s' % tag)
+        with open(path, 'w') as f:
+            f.write(text)
+        return text, lambda: asyncssh.read_known_hosts(path)
+    return text, lambda: asyncssh.import_known_hosts(text)
+
+
+def gen_reuse_ops(rng, cfg):
+    """Queries about the same file: the configuration's own, the same name at other addresses / ports / without an
+    address, other names at the same address; some repeated."""
+    name, addr, port = cfg['alias'] or cfg['host'], cfg['addr'], cfg['port']
+    other_addr = rng.choice([a for a in P.ADDRS if a != addr])
+    other_host = rng.choice([h for h in P.HOSTS if h != name])
+    ops = [[name, addr, port], [name, other_addr, port], [name, '', port], [name, addr, 2222 if port != 2222 else 22],
+           [other_host, addr, port], [name, other_addr, port], [addr, addr, port]]
+    first = ops[0]
+    rest = rng.sample(ops[1:], rng.randint(2, 4))
+    seq = [first] + rest if rng.random() < 0.7 else rest + [first]
+    return [q + [rng.choice(['client', 'client', 'lookup'])] for q in seq]
+
+
+def lookup_indices(pool, obj, q):
+    import asyncssh
+    res = asyncssh.match_known_hosts(obj, q[0], q[1], None if q[2] == 22 else q[2])
+    return tuple(sorted({pool.index_of_blob(k.public_data) for k in res[i]}) for i in range(3))
+
+
+def reuse_cfg(cfg, q):
+    return dict(cfg, host=q[0], addr=q[1], port=q[2], alias=None, form='obj', path='direct', via_config=False)
+
+
+def reuse_trials(cfg_q):
+    name = cfg_q['host']
+    vs = [{'form': 'plain', 'key': i} for i in range(len(P.POOL_SPEC))]
+    vs += [{'form': 'cert', 'key': 0, 'ca': ca, 'ctype': 2, 'after': T0 - 100, 'before': T0 + 100, 'principals': [name],
+            'bad_sig': False} for ca in P.CA_KEYS]
+    return vs
+
+
+def run_reuse_prefix(pool, cfg, ops, make, use_options):
+    """Build the object, perform ops (all of them), return (object, options or None)."""
+    import asyncssh
+    obj = make()
+    opts = None
+    if use_options:
+        opts = asyncssh.SSHClientConnectionOptions(**N.client_kw(obj, None, None, cfg['cb_key'], cfg['cb_ca'], []))
+    for q in ops:
+        if q[3] == 'lookup':
+            lookup_indices(pool, obj, q)
+        else:
+            asyncio.run(decide_on_live_client(pool, reuse_cfg(cfg, q), obj, [], options=opts))
+    return obj, opts
+
+
+def stage_reuse(ctx, pool, configs, n):
+    rng = ctx.rng
+    cases, ccases, stats = [], [], {'sequences': 0, 'steps': 0, 'client_steps': 0, 'with_options': 0, 'accept': 0,
+                                    'address_changed_after_match': 0}
+    cstats = {}
+    usable = [c for c in configs if c['form'] not in ('none',) + EMPTY_FORMS and any(l['kind'] == 'entry' for l in c['lines'])]
+    for si in range(n):
+        cfg = dict(usable[si % len(usable)], path='direct', via_config=False)
+        source = rng.choice(['import', 'read'])
+        use_options = rng.random() < 0.4
+        text, make = reuse_source(pool, cfg, ctx.work, str(si), source)
+        ops = gen_reuse_ops(rng, cfg)
+        if si < len(REUSE_DIRECTED):
+            cfg, ops = REUSE_DIRECTED[si]
+            cfg = dict(cfg)
+            text, make = reuse_source(pool, cfg, ctx.work, str(si), source)
+        import asyncssh
+        obj = make()
+        opts = None
+        if use_options:
+            opts = asyncssh.SSHClientConnectionOptions(**N.client_kw(obj, None, None, cfg['cb_key'], cfg['cb_ca'], []))
+            stats['with_options'] += 1
+        stats['sequences'] += 1
+        for oi, q in enumerate(ops):
+            stats['steps'] += 1
+            if oi and q[0] == ops[0][0] and q[1] != ops[0][1]:
+                stats['address_changed_after_match'] += 1
+            cfg_q = reuse_cfg(cfg, q)
+            pure = lookup_indices(pool, make(), q)                 # what a lookup that depends on nothing else answers
+            tr_ref = ref_trust(cfg_q)
+            rp_extra = dict(stage='reuse', ops=ops[:oi + 1], source=source, use_options=use_options)
+            if q[3] == 'lookup':
+                got = lookup_indices(pool, obj, q)
+                ctx.note_case(('reuse-lookup', tuple(map(tuple, ops[:oi + 1])), text), nontrivial=oi > 0)
+                if got != pure:
+                    ctx.broke('correspondence:lookup_purity',
+                              f'lookup {q[:3]} on a reused SSHKnownHosts object answers {got}, a fresh object {pure}; '
+                              f'earlier lookups {ops[:oi]}; file:\n{text}')
+                    bad_keys = [k for k in got[0] + got[1] if k not in pure[0] + pure[1]]
+                    if bad_keys:
+                        ctx.failing_input(f'match_known_hosts{tuple(q[:3])} on a reused SSHKnownHosts object lists keys {bad_keys} '
+                                          f'as trusted that the same file does not list for this host (fresh object: {pure}); '
+                                          f'earlier lookups on the object: {ops[:oi]}',
+                                          replay_obj(pool, 'lookup_not_pure', cfg, {'form': 'plain', 'key': bad_keys[0]}, T0,
+                                                     final='lookup', **rp_extra))
+                continue
+            stats['client_steps'] += 1
+            trials = reuse_trials(cfg_q)
+            res, in_kex = asyncio.run(decide_on_live_client(pool, cfg_q, obj, [(variant_blob(pool, v), T0) for v in trials],
+                                                            options=opts))
+            if not in_kex:
+                ctx.broke('harness:reuse', f'client did not reach the key exchange for {q}')
+                continue
+            for v, (tag, val) in zip(trials, res):
+                if tag == 'exc':
+                    ctx.broke('correspondence:reuse', f'validate_server_host_key raised {val} for {v} at step {q}')
+                    continue
+                got = pool.index_of_blob(val) if tag == 'ok' else None
+                cases.append('(%s, %s, %s, %s, %s, %s, %s)' % (coq_trust(pure), cbool(cfg['cb_key']), cbool(cfg['cb_ca']),
+                                                               zs(q[0]), cz(T0), coq_presented(v), copt(got, str)))
+                ctx.note_case(('reuse', tuple(map(tuple, ops[:oi + 1])), text, repr(sorted(v.items()))), nontrivial=oi > 0)
+                if got is not None:
+                    stats['accept'] += 1
+                    if not expected_accept(tr_ref, cfg_q, v, T0) or got != v['key']:
+                        ctx.failing_input(f'step {oi + 1} of a sequence on ONE SSHKnownHosts object'
+                                          f'{" inside one options object" if use_options else ""}: client for {tuple(q[:3])} accepted '
+                                          f'{v}; reference trust sets for this query {tr_ref}; earlier steps {ops[:oi]}',
+                                          replay_obj(pool, 'reused_known_hosts_not_pure', cfg, v, T0, final='decide', **rp_extra))
+        # the connect oracle on the last query of the sequence, same object: a key the file lists, but not for this query
+        q = ops[-1]
+        cfg_q = reuse_cfg(cfg, q)
+        tr_ref = ref_trust(cfg_q)
+        listed = sorted({l['key'] for l in cfg['lines'] if l['kind'] == 'entry' and l['marker'] == ''})
+        wrong = [k for k in listed if not expected_accept(tr_ref, cfg_q, {'form': 'plain', 'key': k}, T0)]
+        if wrong:
+            v = {'form': 'plain', 'key': rng.choice(wrong)}
+            lie = dict(HONEST, signer=v['key'])
+            pure = lookup_indices(pool, make(), q)
+            obs = asyncio.run(one_connect(pool, cfg_q, obj, v, T0, 'liar', lie, ALL_ALGS))
+            wire = obs['client_wire']
+            creds = M.MSG_SERVICE_REQUEST in wire or any(t >= 50 for t in wire) or any(bool(x) for x in obs['server_saw'].values())
+            cstats['connects'] = cstats.get('connects', 0) + 1
+            ctx.note_case(('reuse-connect', tuple(map(tuple, ops)), text, v['key']), nontrivial=True)
+            if obs['class'] == 0 or creds:
+                ctx.failing_input(f'connect() for {tuple(q[:3])} with a reused SSHKnownHosts object succeeded / sent {wire} to a server '
+                                  f'proving key {v["key"]}, which the file does not list for this query (reference {tr_ref}); '
+                                  f'earlier steps {ops}',
+                                  replay_obj(pool, 'reused_known_hosts_not_pure', cfg, v, T0, final='connect', stage='reuse',
+                                             ops=ops + [q[:3] + ['connect']], source=source, use_options=False))
+            if obs['class'] in (0, 1, 2) and obs['offered'] is not None:
+                ccases.append('(%s, %s, %s, %s, (true, %s, %s, 0, %s), (%d, %s, %s))' % (
+                    coq_trust(pure), cbool(cfg['cb_key']), cbool(cfg['cb_ca']), zs(q[0]), coq_presented(v), coq_sig(lie), cz(T0),
+                    obs['class'], cbool(M.MSG_SERVICE_REQUEST in wire), cbool(any(t >= 50 for t in wire))))
+        if si == 0:
+            ctx.sample({'reuse': {'known_hosts': text, 'source': source, 'options_object': use_options, 'steps': ops}})
+    for k, x in list(stats.items()) + list(cstats.items()):
+        ctx.count('reuse.' + k, x)
+    for k in ('sequences', 'client_steps', 'with_options', 'accept', 'address_changed_after_match'):
+        if not stats[k]:
+            ctx.broke('vacuity:reuse.' + k, repr(stats))
+    if not cstats.get('connects'):
+        ctx.broke('vacuity:reuse.connects', repr(cstats))
+    bad = ctx.coq_cases('reuse', IMPORTS, 'chk_decide', cases,
+                        ty=f'{TY_TRUST} * bool * bool * list Z * Z * presented * option Z')
+    if bad:
+        ctx.broke('correspondence:reuse', f'{len(bad)} of {len(cases)} differ (model input = lookup on a FRESH object); first: '
+                                          f'{cases[bad[0]]}')
+    bad = ctx.coq_cases('reuse_connect', IMPORTS, 'chk_connect', ccases,
+                        ty=f'{TY_TRUST} * bool * bool * list Z * (bool * presented * (Z * Z) * Z * Z) * (Z * bool * bool)')
+    if bad:
+        ctx.broke('correspondence:reuse_connect', f'{len(bad)} of {len(ccases)} differ; first: {ccases[bad[0]]}')
+
+
+def _reuse_directed():
+    base = {'alias': None, 'form': 'obj', 'cb_key': False, 'cb_ca': False, 'host': 'mem', 'addr': '10.0.0.2', 'port': 22}
+    a = dict(base, lines=[E('', 'mem', 0), E('', '10.0.0.2', 1), E('cert-authority', '10.0.0.0/24', 4),
+                          E('revoked', '10.0.0.2', 2), E('', 'mem', 2)])
+    b = dict(base, lines=[E('', 'mem', 0), E('', '*.example.com', 1), E('', 'bar,10.0.0.2', 3), E('cert-authority', '192.168.7.?', 5)])
+    return [
+        (a, [['mem', '10.0.0.2', 22, 'client'], ['mem', '192.168.7.9', 22, 'client'], ['mem', '', 22, 'client']]),
+        (a, [['mem', '10.0.0.2', 22, 'lookup'], ['mem', '192.168.7.9', 22, 'lookup'], ['mem', '192.168.7.9', 22, 'client']]),
+        (b, [['mem', '192.168.7.9', 22, 'client'], ['mem', '10.0.0.2', 22, 'client'], ['mem', '10.0.1.2', 22, 'client'],
+             ['foo.example.com', '10.0.1.2', 22, 'client'], ['mem', '10.0.1.2', 22, 'lookup']]),
+    ]
+
+
+REUSE_DIRECTED = _reuse_directed()
 
 
 # --------------------------------------------------------------------------------------------------
@@ -644,7 +871,7 @@ def stage_scripts(ctx, pool, configs, n):
     rng = ctx.rng
     cases, stats = [], {'reached_auth': 0, 'closed': 0, 'deferred_then_flushed': 0}
     for i in range(n):
-        cfg = configs[i % len(configs)]
+        cfg = dict(configs[i % len(configs)], path='direct', via_config=False)   # the order is the subject here
         vs = variants_for(rng, cfg, ctx.tier)
         tr_ref = ref_trust(cfg)
         acc = [v for v in vs if expected_accept(tr_ref, cfg, v, T0) and v['form'] != 'garbage']
@@ -701,13 +928,22 @@ def run(ctx):
         'Configurations = generated known_hosts (1-7 lines over plain, [host]:port, wildcard, negated, CIDR and hashed host '
         'fields aimed at or near the queried host/address/port; markers none/@cert-authority/@revoked; comments, blank and '
         'unparsable lines) handed to the real client as bytes, file name, list of file names, SSHKnownHosts object, callable, '
-        '3-tuple, 7-tuple or None, plus host_key_alias and validate_host_*_key callbacks; 26 fixed configurations (hostile names '
+        '3-tuple, 7-tuple or None, plus host_key_alias and validate_host_*_key callbacks; 34 fixed configurations (hostile names '
         'against wildcard lines, listed+revoked, revoked CA, revoked subject key, port fallback, CIDR, hashed) run first.  The '
         "model's input is the result of the real match_known_hosts for the client's (alias or host, peer address, port).  "
         'Presented = each of 8 pool keys, certificates (4 CAs x subjects, type 0/1/2/3, window edges incl. fractional clock '
         'values with time.time patched, principals empty/other/several/upper-case/wildcard text, damaged CA signature), undecodable '
         'blobs; signatures honest, by another key, by the CA key, over another hash, damaged.  A case is distinct by (lookup '
-        'result, callbacks, name, time, presented, signature, message order); non-trivial when checking is enabled.')
+        'result, callbacks, name, time, presented, signature, message order); non-trivial when checking is enabled.  '
+        'Ways of reaching the server: directly (MemWire), through a real asyncssh jump server with tunnel=<client connection> '
+        '(the address in play is then the JUMP host\'s; keys the file lists only for it are presented honestly and must be '
+        'refused), sock=<loopback socket>, proxy_command, host written as an IP, name/port/HostKeyAlias taken from an '
+        'ssh_config file; known_hosts also b"", not given, and the default ~/.ssh/known_hosts (HOME in the work directory).  '
+        'The reference trust sets are computed from what the USER asked about (name, the address the target really has for '
+        'this client or none, port).  Reuse: sequences of lookups and client connections on ONE SSHKnownHosts object '
+        '(import_known_hosts / read_known_hosts), optionally inside ONE SSHClientConnectionOptions object, same name at '
+        'changing addresses/ports; the model input of every step is the lookup on a FRESH object, so the thing checked is '
+        'purity of the lookup (same answer whatever was asked before).')
     ctx.cov['trusted_base'] += [
         'C04: the input of the model is the RESULT of known_hosts matching (real asyncssh.match_known_hosts); matching itself is '
         'property C17.  An independent reference matcher in the harness (c04_pool.field_matches/ref_lookup, own wildcard '
@@ -747,6 +983,8 @@ def run(ctx):
         ctx.log('decision stage done')
         stage_connect(ctx, pool, configs if ctx.tier == 'quick' else configs + [gen_config(rng) for _ in range(1200)])
         ctx.log('connect stage done')
+        stage_reuse(ctx, pool, configs, 260 if ctx.tier == 'thorough' else 26)
+        ctx.log('reuse stage done')
         stage_scripts(ctx, pool, configs, 2500 if ctx.tier == 'thorough' else 260)
         ctx.log('script stage done')
     finally:
@@ -782,13 +1020,15 @@ def replay(rp):
     tr_ref = ref_trust(cfg)
     stage = rp.get('stage')
     if stage == 'decide':
-        res, _ = asyncio.run(decide_on_live_client(pool, cfg, kh, [(variant_blob(pool, v), now)]))
+        res, _ = asyncio.run(decide_on_live_client(pool, cfg, kh, [(variant_blob(pool, v), now)],
+                                                   config_file(cfg, work, 'replay')))
         tag, val = res[0]
         bad = tag == 'ok' and (not expected_accept(tr_ref, cfg, v, now) or pool.index_of_blob(val) != v['key'])
         print('replay: validate_server_host_key ->', tag, '; reference trust', tr_ref, '; still failing:', bad)
         return 1 if bad else 0
     if stage == 'connect':
-        obs = asyncio.run(one_connect(pool, cfg, kh, v, now, rp['engine'], rp['lie'], rp['algs']))
+        obs = asyncio.run(one_connect(pool, cfg, kh, v, now, rp['engine'], rp['lie'], rp['algs'],
+                                      config_file(cfg, work, 'replay')))
         wire = obs['client_wire']
         creds = M.MSG_SERVICE_REQUEST in wire or any(t >= 50 for t in wire) or any(bool(x) for x in obs['server_saw'].values())
         lie = rp['lie']
@@ -796,6 +1036,29 @@ def replay(rp):
         want = honest and expected_accept(tr_ref, cfg, v, now)
         bad = ((obs['class'] == 0 or creds) and not want) or (obs['class'] != 0 and creds)
         print('replay: outcome', obs['exc'] or 'connected', 'wire', wire, 'server saw', obs['server_saw'], '; still failing:', bad)
+        return 1 if bad else 0
+    if stage == 'reuse':
+        ops = rp['ops']
+        _, make = reuse_source(pool, cfg, work, 'replay', rp['source'])
+        obj, opts = run_reuse_prefix(pool, cfg, ops[:-1], make, rp['use_options'])
+        q = ops[-1]
+        cfg_q = reuse_cfg(cfg, q)
+        tr_q = ref_trust(cfg_q)
+        if rp['final'] == 'lookup':
+            got, pure = lookup_indices(pool, obj, q), lookup_indices(pool, make(), q)
+            bad = any(k not in pure[0] + pure[1] for k in got[0] + got[1])
+            print('replay: reused object answers', got, '; fresh object', pure, '; still failing:', bad)
+            return 1 if bad else 0
+        if rp['final'] == 'decide':
+            res, _ = asyncio.run(decide_on_live_client(pool, cfg_q, obj, [(variant_blob(pool, v), now)], options=opts))
+            tag, val = res[0]
+            bad = tag == 'ok' and (not expected_accept(tr_q, cfg_q, v, now) or pool.index_of_blob(val) != v['key'])
+            print('replay: after', ops[:-1], 'client for', q[:3], '->', tag, '; reference trust', tr_q, '; still failing:', bad)
+            return 1 if bad else 0
+        obs = asyncio.run(one_connect(pool, cfg_q, obj, v, now, 'liar', dict(HONEST, signer=v['key']), ALL_ALGS))
+        wire = obs['client_wire']
+        bad = obs['class'] == 0 or M.MSG_SERVICE_REQUEST in wire or any(t >= 50 for t in wire)
+        print('replay: outcome', obs['exc'] or 'connected', 'wire', wire, '; still failing:', bad)
         return 1 if bad else 0
     if stage == 'script':
         lie = rp['lie']
